@@ -1,6 +1,7 @@
 package cluster
 
 import (
+	"errors"
 	"encoding/json"
 	"os"
 
@@ -24,6 +25,10 @@ func (g *c14gossip) GossipNeighbourSubset(update mesh.GossipData)     {}
 type c14dec struct{}
 
 func (c14dec) DecryptKey(k string) (security.Key, error) {
+	// the license cipher decrypts exactly the strings that were issued (C20)
+	if k != "master" && k != "the-key" {
+		return nil, errors.New("cipher: the key provided is not valid")
+	}
 	key := security.Key(make([]byte, 24))
 	key.SetContract(7)
 	key.SetSignature(9)
@@ -44,7 +49,11 @@ func c14Unmarshal(data []byte, v interface{}) error {
 }
 
 func c14request(v *verifrt.T, kb *keyban.Service, banned bool) bool {
-	req := keyban.Request{Secret: "master", Target: "the-key", Banned: banned}
+	return c14requestFor(v, kb, "the-key", banned)
+}
+
+func c14requestFor(v *verifrt.T, kb *keyban.Service, target string, banned bool) bool {
+	req := keyban.Request{Secret: "master", Target: target, Banned: banned}
 	var payload []byte
 	if v.Symbolic() {
 		c14pending = req
@@ -72,6 +81,8 @@ func VerifC14Shapes(v *verifrt.T) {
 		{0, 3, 1, 3, 4, 0, 3, 4}, // ... the key has a tombstone on B and was looked up, then a ban arrives
 		{0, 1, 5, 2, 0, 5, 2},    // toggle, restart, use, ban, restart, use
 		{0, 3, 4, 5, 1, 3, 4, 2}, // restart of A between the ban and the unban
+		{0, 1, 6, 0, 7, 7, 7, 8, 4}, // ban, unban, seven hours, ban again; the broadcasts are lost, the full state carries it
+		{9, 2, 0, 9, 2, 3, 4},       // padded targets before and after a real ban
 	}
 	c14history(v, shapes[v.Choice(len(shapes), "shape")])
 }
@@ -148,6 +159,32 @@ func c14history(v *verifrt.T, kinds []int) {
 			}
 		case 4: // use the key on B
 			v.Assert(b.Contains(&ban) == (bAdd != 0 && bAdd >= bDel), "C14.use-on-B-follows-merged-gossip")
+		case 6: // seven hours pass (tombstones older than six hours may be forgotten, bans may not)
+			c14clock += 7 * 3600 * 1000000000
+		case 7: // the oldest undelivered broadcast is lost
+			if delivered < len(ga.sent) {
+				delivered++
+			}
+		case 8: // periodic full-state gossip A -> B: A's complete (durable) state through the wire codecs
+			if g := a.Gossip(); g != nil {
+				full := g.(*event.State)
+				t := full.VerifBanTimes()
+				crdt.Now = func() int64 { return c14clock - skew }
+				p, err := full.VerifHop()
+				crdt.Now = func() int64 { return c14clock }
+				v.Assert(err == nil, "C14.payload-survives-the-hop")
+				if t[0] > bAdd {
+					bAdd = t[0]
+				}
+				if t[1] > bDel {
+					bDel = t[1]
+				}
+				b.state.Merge(p)
+			}
+		case 9: // a ban request whose target is the key with white space around it (a pasted line):
+			// that is not a key that was issued; acknowledged or not, the key itself keeps its status
+			ok := c14requestFor(v, kb, "the-key\n", !banned)
+			v.Assert(!ok, "C14.request-for-a-string-that-is-not-a-key-is-refused")
 		}
 	}
 	v.Reach("history-done")
